@@ -549,6 +549,8 @@ func (env *Env) callExpr(n *ast.CallExpr) SV {
 			return svInt(itoa(t.Len()))
 		case *types.Basic:
 			return svInt(sx("strlen", v.V[0].T))
+		case *types.Map:
+			return svInt(x.vc.mapFamily(t).lenTerm(x.vc, env.st, v.V[0].T))
 		case *types.Pointer:
 			if arr, ok := t.Elem().Underlying().(*types.Array); ok {
 				return svInt(itoa(arr.Len()))
